@@ -101,6 +101,10 @@ func (s *jwtSigner) load() error {
 			CausedBy(err)
 	}
 
+	if len(ks.Entries()) == 0 {
+		return errorchain.NewWithMessage(heimdall.ErrConfiguration, "key store does not contain any key")
+	}
+
 	var kse *keystore.Entry
 
 	if len(s.keyID) == 0 {
